@@ -9,7 +9,9 @@ import json
 from hashlib import sha1
 
 AUTHORS = ["V. Arnold", "Arnold Sh.", "Richard Feynman", "J. Morrison", "Norris, Chuck",
-           "Elieser Yudkowsky", "Stanislav Lem", "Viktor Tsoy", "Linus B. Torvalds", "Euler"]
+           "Elieser Yudkowsky", "Stanislav Lem", "Viktor Tsoy", "Linus B. Torvalds", "Euler",
+           # names that fill or overflow the fixed 18-character column of the report, non-ASCII, empty
+           "Wolfgang A. Mozart", "Bartholomew Fitzgerald-Smythe", "Jos\u00e9 \u00c1ngel Guti\u00e9rrez", ""]
 BASE_TIME = 15000 * 86400
 
 
